@@ -255,8 +255,15 @@ class _ReusablePoolExecutor(ProcessPoolExecutor):
                 time.sleep(1e-3)
 
             self._adjust_process_count()
-            processes = list(self._processes.values())
-            while not all(p.is_alive() for p in processes):
+            # Make the executor manager thread watch the sentinels of the newly
+            # spawned workers, and poll the live set of processes rather than a
+            # snapshot: a worker that died or timed out meanwhile is removed by
+            # the manager thread and will never be alive again.
+            with self._flags.shutdown_lock:
+                self._executor_manager_thread_wakeup.wakeup()
+            while not all(
+                p.is_alive() for p in list(self._processes.values())
+            ):
                 time.sleep(1e-3)
 
     def _wait_job_completion(self):
